@@ -75,8 +75,19 @@ class MolecularContainer:
         # the pair loops depend on that order: restore the order of the
         # reference table (= order of first appearance in the input).
         position = {key: i for i, key in enumerate(ref_atoms)}
+        # residue positions (chain, number) that carry more than one residue
+        # name within ONE conformation as read (e.g. LYS 5 and an ion numbered
+        # 5 in a file without chain identifiers): these are different
+        # residues, not alternative residue types of one position
+        shared_sites = set()
         for conf in self.conformations.values():
-            conf.top_up_from_atoms(ref_atoms.values())
+            seen: dict = {}
+            for atom in conf.atoms:
+                site = (atom.chain_id, atom.res_num)
+                if seen.setdefault(site, atom.res_name) != atom.res_name:
+                    shared_sites.add(site)
+        for conf in self.conformations.values():
+            conf.top_up_from_atoms(ref_atoms.values(), shared_sites)
             if len(self.conformations) > 1:
                 conf.atoms.sort(key=lambda atom: position[
                     (atom.residue_label, atom.res_name)])
